@@ -439,6 +439,10 @@ pub fn generate(seed: u64, prop: &str) -> Scenario {
     }
     let pow_only = prop == "C07P";
     let prop = if pow_only { "C03" } else { prop };
+    // C10L: the C10 family with main chains longer than 256 blocks (heights whose little-endian key
+    // bytes no longer sort like the numbers), constant toy epochs
+    let long10 = prop == "C10L";
+    let prop = if long10 { "C10" } else { prop };
     let mut r = Rng::new(seed ^ 0x51D0_0000);
     let mut cfg = gen_cfg(&mut r);
     if prop == "C14" {
@@ -459,7 +463,12 @@ pub fn generate(seed: u64, prop: &str) -> Scenario {
             cfg.epoch_duration_target = cfg.genesis_epoch_len * 8;
         }
     }
-    let n = if prop == "C08" { r.urange(6, 24) } else if prop == "C10" { r.urange(30, 90) } else if prop == "C04" { r.urange(25, 70) } else { r.urange(8, 60) };
+    if long10 {
+        cfg.genesis_epoch_len = *r.pick(&[4u64, 5, 6]);
+        cfg.permanent_difficulty = true;
+        cfg.epoch_duration_target = cfg.genesis_epoch_len * 8;
+    }
+    let n = if long10 { r.urange(270, 420) } else if prop == "C08" { r.urange(6, 24) } else if prop == "C10" { r.urange(30, 90) } else if prop == "C04" { r.urange(25, 70) } else { r.urange(8, 60) };
     let rich = prop != "C01" || r.chance(1, 2);
     let invalid = match prop {
         "C01" | "C03" => r.urange(0, 3),
